@@ -83,7 +83,41 @@ fn run_one(rec: &Value) -> Value {
             ..base
         };
         cfg.quiet_repl = true;
+        // compile for another interpreter (as `erg --py-command P` does)
+        if let Some(py) = rec["py"].as_str() {
+            static TARGETS: std::sync::Mutex<Vec<(String, u32, Option<erg_common::python_util::PythonVersion>)>> =
+                std::sync::Mutex::new(Vec::new());
+            let mut t = TARGETS.lock().unwrap();
+            if !t.iter().any(|e| e.0 == py) {
+                t.push((
+                    py.to_string(),
+                    erg_common::python_util::detect_magic_number(py),
+                    erg_common::python_util::get_python_version(py),
+                ));
+            }
+            let e = t.iter().find(|e| e.0 == py).unwrap();
+            cfg.py_magic_num = Some(e.1);
+            cfg.target_version = e.2;
+            cfg.py_command = Some(Box::leak(py.to_string().into_boxed_str()));
+        }
         match mode.as_str() {
+            "transpile" => {
+                // `erg transpile [--target json]`: the generated script / document is written to "out"
+                if rec["target"].as_str() == Some("json") {
+                    cfg.transpile_target = Some(erg_common::config::TranspileTarget::Json);
+                }
+                let mut t = erg_compiler::Transpiler::new(cfg);
+                match t.transpile(src.clone(), "exec") {
+                    Ok(art) => {
+                        let code = art.object.into_code();
+                        if let Some(out) = rec["out"].as_str() {
+                            let _ = std::fs::write(out, &code);
+                        }
+                        json!({"ok": true, "errors": [], "nwarns": art.warns.len(), "code_len": code.len()})
+                    }
+                    Err(art) => json!({"ok": false, "errors": errs_json(&art.errors, render), "nwarns": art.warns.len()}),
+                }
+            }
             "compile" => {
                 let mut c = Compiler::new(cfg);
                 if let Some(pyc) = rec["pyc"].as_str() {
